@@ -282,8 +282,11 @@ func WorkerMain(t *testing.T, p *Prop, seed uint64, tier string, shard, shards i
 	go func() {
 		for {
 			time.Sleep(2 * time.Second)
-			if time.Now().UnixNano()-lastCase.Load() > int64(30*time.Second) {
-				fmt.Fprintln(os.Stderr, "WATCHDOG: the current case has made no progress for 30 s")
+			// (60 s in a batch worker, 30 s in the single-case replay that confirms a
+			// hang: a case that is merely slow while sixteen workers share the
+			// machine is not a hang, and one that is one hangs alone too)
+			if time.Now().UnixNano()-lastCase.Load() > int64(60*time.Second) {
+				fmt.Fprintln(os.Stderr, "WATCHDOG: the current case has made no progress for 60 s")
 				fmt.Fprintln(os.Stderr, hangClass())
 				w.Flush()
 				os.Exit(3)
